@@ -151,7 +151,7 @@ def simOne (n seed : Nat) (stable : Bool) : Except String SimStats :=
   let (s, ac, _) := genAdf n seed
   let g := groundedLoop StoreRA (n + 1) s ac
   let P := mkParams g.1 n ac stable
-  simLoop P n ac stable { s := g.1, cur := g.2, buckets := List.replicate n [], stack := [], hist := [],
+  simLoop P n ac stable { s := g.1, cur := g.2, buckets := List.replicate (n + 1) [], stack := [], hist := [],
                           backtrack := false, choice := false, out := [], trace := [] } false {}
 
 def simMany (cases : Nat) : IO Unit := do
